@@ -71,6 +71,7 @@ var polluters = []struct{ Name, Src string }{
 	{"props-replace-add-delete", `_.props.replaced = 1; _.props.q = "overwritten"; delete _.props.p; return _.bindings;`},
 	{"props-nested-mutation", `if (_.props.nested) { _.props.nested.k = "polluted"; _.props.nested.added = [1]; if (_.props.nested.inner) { _.props.nested.inner.deep = "polluted"; } } return _.bindings;`},
 	{"props-list-mutation", `if (_.props.list) { _.props.list[0] = "polluted"; if (_.props.list[1]) { _.props.list[1].m = "polluted"; } } return _.bindings;`},
+	{"props-typed-containers", `var p = _.props; if (p.attrs) { p.attrs.k = "polluted"; p.attrs.added = "x"; } if (p.tags) { p.tags[0] = "polluted"; } if (p.rows && p.rows[0]) { p.rows[0].m = "polluted"; if (p.rows[0].cells) { p.rows[0].cells[0] = 99; } } return _.bindings;`},
 	{"props-reassign", `_.props = {hijacked:true}; return _.bindings;`},
 	{"globals", `var G = Function("return this")(); G.leak = 1; var leakedVar = 2; G.leakedThis = 3; G.ss2 = function(){}; G.ss = function(){ return "hijacked"; }; return _.bindings;`},
 	{"globals-sloppy-assignment", `try { leak = 1; } catch (e) { } try { this.leakedThis = 3; } catch (e) { } return _.bindings;`},
@@ -134,6 +135,10 @@ func mkProps() core.StepProps {
 		"q":      "s",
 		"nested": map[string]interface{}{"k": "original", "inner": map[string]interface{}{"deep": "original"}},
 		"list":   []interface{}{"first", map[string]interface{}{"m": "original"}},
+		// containers as Go code has them
+		"attrs": map[string]string{"k": "original"},
+		"tags":  []string{"a", "b"},
+		"rows":  []map[string]interface{}{{"m": "original", "cells": []int{1, 2}}},
 	}
 }
 
@@ -204,7 +209,7 @@ func (e *exec) run(rec *fw.Rec, name string, bs match.Bindings, props core.StepP
 }
 
 func Run(cfg fw.Config, rec *fw.Rec) {
-	rec.Rule = "20 polluting scripts (in-place mutation of _.bindings at depth 1-4, of _.props incl. nested maps and lists, globals with and without var, Object/Array prototype and JSON/Math/Object.keys patches, replaced environment members, environment members reached by enumeration / computed keys / escaped identifiers, pollution followed by a throw) run (on caller bindings of 9 shapes: nested objects, flat with arrays only, arrays of arrays / objects, Go-typed numbers, Go-typed containers such as []string and map[string]string, nested NaN / infinite numbers) in sequences of length 1-5 before a probe script that reports everything observable (globals, prototypes, built-ins, environment keys, props, bindings); the probe's report must equal its report in a clean run; a self-probe pollutes and reports leftovers of its own earlier executions; the caller's bindings and props are deep-snapshotted around every execution (also through Spec.Step); a tally script run with absent and with empty step properties must find _.props empty every time (sequentially, after every polluter, from 32 goroutines); 16-64 goroutines run one compiled source concurrently (race detector on); non-trivial = polluter sequence followed by a clean probe; distinct by sequence"
+	rec.Rule = "21 polluting scripts (in-place mutation of _.bindings at depth 1-4, of _.props incl. nested maps and lists and Go-typed containers (map[string]string, []string, []map[string]interface{}), globals with and without var, Object/Array prototype and JSON/Math/Object.keys patches, replaced environment members, environment members reached by enumeration / computed keys / escaped identifiers, pollution followed by a throw) run (on caller bindings of 9 shapes: nested objects, flat with arrays only, arrays of arrays / objects, Go-typed numbers, Go-typed containers such as []string and map[string]string, nested NaN / infinite numbers) in sequences of length 1-5 before a probe script that reports everything observable (globals, prototypes, built-ins, environment keys, props, bindings); the probe's report must equal its report in a clean run; a self-probe pollutes and reports leftovers of its own earlier executions; the caller's bindings and props are deep-snapshotted around every execution (also through Spec.Step); a tally script run with absent and with empty step properties must find _.props empty every time (sequentially, after every polluter, from 32 goroutines); 16-64 goroutines run one compiled source concurrently (race detector on); non-trivial = polluter sequence followed by a clean probe; distinct by sequence"
 	rec.Required = []string{"probe_after_polluters_clean", "self_probe_clean", "concurrent_rounds", "step_props_intact", "snapshots_intact", "absent_or_empty_props_private_per_execution"}
 	rec.Assume = []string{"the race detector reports only races that occur in the interleavings produced", "probe observability: what the probe script can enumerate (globals by name, prototypes, built-ins used by the DSL, environment keys, props, bindings)"}
 	e := newExec(rec)
